@@ -157,6 +157,7 @@ def run(tier: str) -> int:
         raise MachineryFailure(f'Levelized.tla violates {r["violated"]}')
     res.add_mc(r, f'MC_Levelized_{tier}.cfg (Homogeneous / MonotoneInCost lemmas)')
     rng = random.Random(seed() * 11 + 11)
+    rng_one = random.Random(seed() * 11 + 1101)
     nb = 60 if tier == 'quick' else 500
     L = Ladders()
     for k, (tag, text, p) in enumerate(gen.grid(seed() * 31 + 11, nb, resmodels=(4, 3), with_extras=False)):
@@ -201,7 +202,7 @@ def run(tier: str) -> int:
         #     along the ladder, the direction of the value measures must not)
         eu_, pt_ = int(p.get('End-Use Option', 1)), int(p.get('Power Plant Type', 1))
         sold = ['Electricity'] if eu_ == 1 else (['Cooling'] if pt_ == 5 else ['Heat']) if eu_ == 2 else ['Electricity', 'Heat']
-        prod = rng.choice(sold)
+        prod = rng_one.choice(sold)      # (a stream of its own: the older ladders keep theirs)
         rungs1 = []
         for m_ in (0, 1, 3):
             one = dict(p)
